@@ -212,6 +212,10 @@ def _scenario(rec, mjm, m, xml, rng, sc, sleep):
       elif k == "history" and a.tobytes() == pre["history"][w].tobytes():
         rec.viol("reset:history-not-reset", f"history buffer of reset world {w} is unchanged by reset_data (fresh make_data buffer differs in {int((a != f).sum())} of {a.size} entries)")
         rec.count("F2_history_not_reset")
+      elif k == "body_awake" and all(mjm.body_treeid[b] < 0 and mjm.body_mocapid[b] < 0 and mjm.body_mocapid[mjm.body_rootid[b]] >= 0 for b in np.nonzero(a != f)[0]):
+        bad = np.nonzero(a != f)[0].tolist()
+        rec.viol("reset:body_awake-static-child-of-mocap", f"body_awake of jointless children of a mocap body {bad} is {a[bad].tolist()} after reset_data, {f[bad].tolist()} in a fresh Data (and in MuJoCo): reset_sleep looks at the body's own mocapid instead of its root's; world {w}")
+        rec.count("body_awake_mocap_child")
       else:
         idx = int(np.argmax(a.ravel() != f.ravel()))
         rec.viol(f"reset:{k}-not-fresh", f"{k} of reset world {w} differs from fresh Data at {idx}: {a.ravel()[idx]} vs {f.ravel()[idx]} (mask {kind}/{dtype})")
